@@ -62,6 +62,8 @@ impl TestRunnerAdapter {
                         thread::sleep(Duration::from_millis(50));
                     }
                     MachineRunningState::Running => {
+                        #[cfg(mos_verif)]
+                        crate::verif_sched::point(1);
                         {
                             let runner = thread_runner.read().unwrap();
                             let pc =
@@ -85,6 +87,8 @@ impl TestRunnerAdapter {
                             }
                         }
 
+                        #[cfg(mos_verif)]
+                        crate::verif_sched::point(2);
                         {
                             let mut runner = thread_runner.write().unwrap();
                             match runner.execute_instruction() {
@@ -229,6 +233,8 @@ impl MachineAdapter for TestRunnerAdapter {
 
     fn pause(&mut self) -> MosResult<()> {
         let pc = self.runner.read().unwrap().cpu().get_program_counter();
+        #[cfg(mos_verif)]
+        crate::verif_sched::point(3);
         self.update_state(MachineRunningState::Stopped(ProgramCounter::new(
             pc as usize,
         )))?;
@@ -236,28 +242,40 @@ impl MachineAdapter for TestRunnerAdapter {
     }
 
     fn next(&mut self) -> MosResult<()> {
+        #[cfg(mos_verif)]
+        crate::verif_sched::point(4);
         {
             let mut runner = self.runner.write().unwrap();
             runner.step_over()?;
         }
+        #[cfg(mos_verif)]
+        crate::verif_sched::point(5);
         self.pause()?;
         Ok(())
     }
 
     fn step_in(&mut self) -> MosResult<()> {
+        #[cfg(mos_verif)]
+        crate::verif_sched::point(4);
         {
             let mut runner = self.runner.write().unwrap();
             runner.execute_instruction()?;
         }
+        #[cfg(mos_verif)]
+        crate::verif_sched::point(5);
         self.pause()?;
         Ok(())
     }
 
     fn step_out(&mut self) -> MosResult<()> {
+        #[cfg(mos_verif)]
+        crate::verif_sched::point(4);
         {
             let mut runner = self.runner.write().unwrap();
             runner.step_out()?;
         }
+        #[cfg(mos_verif)]
+        crate::verif_sched::point(5);
         self.pause()?;
         Ok(())
     }
